@@ -55,6 +55,11 @@ type gen struct {
 	// closedness of close({..}) there (observed; design/C13.md), so the
 	// generator keeps additionalProperties:false and object constants out.
 	noClose bool
+	// noUnique: below `contains`.  list.MatchN(.., list.UniqueItems()) of the
+	// pinned tree does not see duplicate list/struct items (observed:
+	// {"contains":{"type":["string","array"],"uniqueItems":true}} counts
+	// [[3],[3]]), so uniqueItems is kept out of that subtree.
+	noUnique bool
 	// deviate enables the constructs outside the fragment of the theorem
 	// (known deviations of the importer) with a small probability.
 	deviate bool
@@ -160,11 +165,14 @@ func (g *gen) falseOK(p pos) bool {
 
 // schema generates a schema of depth <= d for position p.
 func (g *gen) schema(d int, p pos) *S {
-	savedNC := g.noClose
+	savedNC, savedNU := g.noClose, g.noUnique
 	if p == posPProp || p == posAddl {
 		g.noClose = true
 	}
-	defer func() { g.noClose = savedNC }()
+	if p == posContains {
+		g.noUnique = true
+	}
+	defer func() { g.noClose, g.noUnique = savedNC, savedNU }()
 	saved, savedM := g.chain, g.member
 	switch p {
 	case posRoot:
@@ -249,6 +257,9 @@ func (g *gen) normalize(s *S) {
 		if s.Addl != nil && s.Addl.IsBool && !s.Addl.B {
 			s.Addl = nil
 		}
+	}
+	if g.noUnique {
+		s.Unique = nil
 	}
 	if g.chain {
 		// `#name` embedded at the file root closes the root value (structs and
